@@ -37,6 +37,7 @@ type rulesCase struct {
 	TargetK  int               `json:"target_k"`
 	Lane     string            `json:"lane"`
 	Prefix   string            `json:"prefix,omitempty"` // three-digit file prefix, default 932
+	IO       *ioScenario       `json:"io,omitempty"`     // an I/O-fault scenario (the other fields are unused then)
 	Twin     string            `json:"twin,omitempty"`   // a second entry of rules/ whose name matches the pattern of the rules file (a copy of it)
 }
 
@@ -226,6 +227,17 @@ func (c *rulesCase) tree() sut.Tree {
 	if c.Twin != "" {
 		t["rules/"+c.Twin] = content
 	}
+	// stray files among the assembly files: names that only end in / begin with a rule file name, and a rule id
+	// without the extension for every rule that has no assembly file
+	for _, r := range c.Rules {
+		t["regex-assembly/wip-"+r.ID+".ra"] = "strayword\n"
+		t["regex-assembly/1"+r.ID+".ra"] = "strayword\n"
+		t["regex-assembly/"+r.ID+" copy.ra"] = "strayword\n"
+		if _, has := c.Sources[r.ID]; !has {
+			t["regex-assembly/"+r.ID] = "strayword\n"
+		}
+	}
+	t["regex-assembly/000-notes.ra"] = "strayword\n"
 	return t
 }
 
@@ -297,6 +309,9 @@ func c11All(env *core.Env, c0 *rulesCase) core.Verdict {
 
 func c11Check(env *core.Env, cc core.Case) core.Verdict {
 	c := cc.(*rulesCase)
+	if c.IO != nil {
+		return ioScenarioCheck(env, "C11", c.IO)
+	}
 	if c.Lane == "all" {
 		return c11All(env, c)
 	}
@@ -396,13 +411,17 @@ func diffKind(got, want, orig string) string {
 
 // c12Case is either a single-rule history on one rules file or an --all history on a whole tree.
 type c12Case struct {
-	Single *rulesCase `json:"single,omitempty"`
-	Proj   *project   `json:"proj,omitempty"`
-	Edit   int        `json:"edit,omitempty"` // which target (in walk order) gets its stored operand edited
+	Single *rulesCase  `json:"single,omitempty"`
+	Proj   *project    `json:"proj,omitempty"`
+	Edit   int         `json:"edit,omitempty"` // which target (in walk order) gets its stored operand edited
+	IO     *ioScenario `json:"io,omitempty"`   // an I/O-fault scenario (the other fields are unused then)
 }
 
 func c12Check(env *core.Env, cc core.Case) core.Verdict {
 	w := cc.(*c12Case)
+	if w.IO != nil {
+		return ioScenarioCheck(env, "C12", w.IO)
+	}
 	if w.Proj != nil {
 		return c12AllCheck(env, w)
 	}
@@ -630,7 +649,7 @@ func init() {
 		ID:    "C11",
 		Level: "exploration",
 		Rule: "generated rules files in CRS layout (1..6 rules, chains of length 0..3, ids sharing the 3-digit prefix and longer ids with the same leading digits, !@rx and non-rx operators, comments that quote ids and SecRule lines (hostile lane: also inside chains and in actions), LF/CRLF, with/without final newline, blanks after `\" \\`) with assembly files whose generated regexes contain $, escaped quotes, `\"@rx `-like text, spaces and backslashes; one update per case on a valid or invalid target, plus update --all on trees whose assembly files (rules and chained rules, so that NNNNNN-chainK.ra is walked right before NNNNNN.ra) are all valid (offset beyond the chain, non-rx operator, missing assembly file). " +
-			"Oracle: the harness renders the file itself, so the expected result is the original with exactly the addressed operand replaced by `regex generate`'s stdout, byte for byte; every other file of the snapshot unchanged; invalid targets must fail and change nothing. Non-trivial = update changed the file.",
+			"Oracle: the harness renders the file itself, so the expected result is the original with exactly the addressed operand replaced by `regex generate`'s stdout, byte for byte; every other file of the snapshot unchanged; invalid targets must fail and change nothing. Non-trivial = update changed the file. Plus I/O-fault scenarios (iofault.go): every read - or every read but the first - of one file longer than two buffers fails with EIO (strace injection): the command must fail without printing or writing a partial result, or what it produced must be the complete result.",
 		Cases: func(env *core.Env, rng *rand.Rand) []core.Case {
 			cs := rulesCases(env, rng, 900, 8000)
 			for i, n := 0, env.N(250, 2500); i < n; i++ {
@@ -649,6 +668,9 @@ func init() {
 				c.Sources = keep
 				cs = append(cs, c)
 			}
+			for _, sc := range ioCases("C11") {
+				cs = append(cs, &rulesCase{Lane: "io", IO: sc})
+			}
 			return cs
 		},
 		Check:         c11Check,
@@ -659,7 +681,7 @@ func init() {
 		ID:    "C12",
 		Level: "exploration",
 		Rule: "(a) the rules-file trees of C11 with a valid target; history update -> compare (text and github mode) -> update -> edit one byte of the stored operand (flip / insert / delete at a PRNG-chosen offset) -> compare (both modes). " +
-			"Oracle: stored operand (cut out by the harness from the line it rendered) equals generate's stdout; compare exits 0 and says 'has not changed' after update; second update leaves the bytes unchanged; after the edit compare exits non-zero in both modes and says 'has changed'. (b) whole generated CRS trees: update --all -> compare --all in both modes (exit 0, every rule reported unchanged) -> one byte of one stored operand edited, the rule chosen anywhere in walk order -> compare --all -o github must fail, compare --all must name the rule as changed, single compare must fail. Non-trivial = complete history executed.",
+			"Oracle: stored operand (cut out by the harness from the line it rendered) equals generate's stdout; compare exits 0 and says 'has not changed' after update; second update leaves the bytes unchanged; after the edit compare exits non-zero in both modes and says 'has changed'. (b) whole generated CRS trees: update --all -> compare --all in both modes (exit 0, every rule reported unchanged) -> one byte of one stored operand edited, the rule chosen anywhere in walk order -> compare --all -o github must fail, compare --all must name the rule as changed, single compare must fail. Non-trivial = complete history executed. Plus I/O-fault scenarios (iofault.go): every read - or every read but the first - of one file longer than two buffers fails with EIO (strace injection): the command must fail without printing or writing a partial result, or what it produced must be the complete result.",
 		Cases: func(env *core.Env, rng *rand.Rand) []core.Case {
 			var cs []core.Case
 			for _, c := range rulesCases(env, rng, 900, 8000) {
@@ -671,6 +693,9 @@ func init() {
 					p = projGen(rng)
 				}
 				cs = append(cs, &c12Case{Proj: p, Edit: rng.Intn(1000)})
+			}
+			for _, sc := range ioCases("C12") {
+				cs = append(cs, &c12Case{IO: sc})
 			}
 			return cs
 		},
